@@ -146,6 +146,7 @@ pub fn const_list() -> Vec<(&'static str, TwoFloat, TwoFloat)> {
 }
 
 pub fn c12(c: &mut Ctx) {
+    c12_angles(c);
     if c.shard != 0 {
         return;
     }
@@ -235,6 +236,105 @@ pub fn c12(c: &mut Ctx) {
         }
     }
     c.extra.insert("constants_checked".into(), json!(19 + 7));
+}
+
+const DEG_HEX: &str = "e52ee0d31e0fbdc30a97537f40d257d73482a25f7cbf02dccda27429b1380d91698b3b01ed3d708b08d6e9f91dceb578c55a12a05922933076f71be0c9b7585a";
+const RAD_HEX: &str = "8efa351294e9c8ae0ec5f66e9485c4d900b7aef501b5e6b8e502a9b4c94c8512b6f611678191148710c50c969d5140c960d4a6b49598f1ee71b1370f3cabeadc";
+
+/// 180/pi and pi/180 truncated to 512 bits (relative error < 2^-511; generated with mpmath at 700 bits).
+fn angle_consts() -> (Dy, Dy) {
+    use crate::exact::BigUint;
+    (Dy { neg: false, m: BigUint::from_hex(DEG_HEX), e: -506 }, Dy { neg: false, m: BigUint::from_hex(RAD_HEX), e: -517 })
+}
+
+/// err/bound of an angle conversion against x*K with the 512-bit constant (bound 6*2^-106 relative).
+fn angle_judge(c: &mut Ctx, op: &'static str, a: W, k: &Dy, to_deg: bool) -> f64 {
+    let ins = tf1(a);
+    c.note(op, &ins, a.0 != 0.0);
+    match guard(|| w(if to_deg { t(a).to_degrees() } else { t(a).to_radians() })) {
+        Err(m) => {
+            c.viol(op, "panic", &ins, &[], m);
+            f64::INFINITY
+        }
+        Ok(r) => {
+            if !finite(r) {
+                c.viol(op, "nonfinite", &ins, &outs(r), "non-finite result".into());
+                return f64::INFINITY;
+            }
+            let tv = dy(a).mul(k);
+            let ratio = crate::exact::rel_ratio(&dy(r), &tv, 6, 106);
+            // the constant is exact to 2^-511: a verdict within 2^-300 of the bound would be undecidable
+            if ratio > 1.0 + 1e-9 {
+                c.viol(op, "accuracy", &ins, &outs(r), format!("relative error exceeds 6*2^-106: err/bound = {ratio:.6}"));
+            }
+            c.ratio(op, "6*2^-106 rel", ratio, &ins);
+            ratio
+        }
+    }
+}
+
+pub fn c12_angles(c: &mut Ctx) {
+    let (deg, rad) = angle_consts();
+    let n = c.budget(6_000_000, 600_000_000) / 3;
+    let mut pool_d: Vec<(f64, W)> = Vec::new();
+    let mut pool_r: Vec<(f64, W)> = Vec::new();
+    let offer = |pool: &mut Vec<(f64, W)>, r: f64, a: W| {
+        if !r.is_finite() {
+            return;
+        }
+        if pool.len() < 48 {
+            pool.push((r, a));
+        } else {
+            let (mi, mv) = pool.iter().enumerate().fold((0, f64::INFINITY), |acc, (i, e)| if e.0 < acc.1 { (i, e.0) } else { acc });
+            if r > mv {
+                pool[mi] = (r, a);
+            }
+        }
+    };
+    for i in 0..n {
+        let a = if i % 3 == 0 {
+            // every mantissa region, low word close to +- half an ulp (largest product rounding errors)
+            let hi = mk(c.rng.coin(), c.rng.range(-450, 449), c.rng.next() & MANT_MASK);
+            let cls = pk!(c.rng, [2u64, 4, 11, 11, 8]);
+            let lo = lo_class(&mut c.rng, hi, cls);
+            if valid_ref(hi, lo) { (hi, lo) } else { (hi, 0.0) }
+        } else {
+            tf_in(&mut c.rng, -450, 449)
+        };
+        let r = angle_judge(c, "to_degrees", a, &deg, true);
+        offer(&mut pool_d, r, a);
+        let r = angle_judge(c, "to_radians", a, &rad, false);
+        offer(&mut pool_r, r, a);
+    }
+    // hill-climbing: concentrate on the mantissa windows where the error is largest
+    for _ in 0..(2 * n) {
+        for (pool, k, to_deg, op) in [(&mut pool_d, &deg, true, "to_degrees"), (&mut pool_r, &rad, false, "to_radians")] {
+            if pool.is_empty() {
+                continue;
+            }
+            let i = c.rng.below(pool.len() as u64) as usize;
+            let (_, a) = pool[i];
+            let a2 = match c.rng.below(4) {
+                0 => {
+                    // same window of the high word, fresh low bits and a fresh near-half-ulp low word
+                    let hi = f64::from_bits(a.0.to_bits() ^ (c.rng.next() & ((1u64 << c.rng.below(40)) - 1)));
+                    let cls = pk!(c.rng, [2u64, 4, 11]);
+                    let lo = lo_class(&mut c.rng, hi, cls);
+                    let lo = if (lo < 0.0) == (a.1 < 0.0) { lo } else { -lo };
+                    if valid_ref(hi, lo) { (hi, lo) } else { a }
+                }
+                _ => tf_mutate(&mut c.rng, a, -450, 449),
+            };
+            let r = angle_judge(c, op, a2, k, to_deg);
+            if r.is_finite() {
+                let (mi, mv) = pool.iter().enumerate().fold((0, f64::INFINITY), |acc, (i, e)| if e.0 < acc.1 { (i, e.0) } else { acc });
+                if r > mv {
+                    pool[mi] = (r, a2);
+                }
+            }
+        }
+        c.count("stress_steps");
+    }
 }
 
 pub fn emit_c12(e: &mut Emit) {
@@ -587,7 +687,36 @@ pub fn c15(c: &mut Ctx) {
             expect_invalid(c, "ln_1p", "ln_1p(x <= -1)", &tf1(m), guard(|| w(t(m).ln_1p())));
         }
         // no panics over the stated domain, and the quotient identities bit for bit
-        let x = match i % 4 {
+        let x = match i % 6 {
+            4 => {
+                // special arguments: powers of ten, small integers, powers of two (fast paths live here)
+                match c.rng.below(3) {
+                    0 => {
+                        let mut p10 = 1.0f64;
+                        for _ in 0..c.rng.below(23) {
+                            p10 *= 10.0;
+                        }
+                        (p10, 0.0)
+                    }
+                    1 => (c.rng.range(1, 4096) as f64, 0.0),
+                    _ => (pow2(c.rng.range(-1000, 959)), 0.0),
+                }
+            }
+            5 => {
+                // inverse-seeded: x = exp(g) / exp2(g) for g on the reduction grids (k/256, k/2 + 1/4, ...)
+                let g = match c.rng.below(3) {
+                    0 => c.rng.range(-180_000, 180_000) as f64 / 256.0,
+                    1 => c.rng.range(-1400, 1400) as f64 * 0.5 + 0.25,
+                    _ => c.rng.range(-90_000, 90_000) as f64 / 128.0 + pow2(-c.rng.range(30, 60)),
+                };
+                let y = guard(|| w(if c.rng.clone().coin() { TwoFloat::from(g).exp() } else { TwoFloat::from(g * 1.4375).exp2() })).unwrap_or((1.5, 0.0));
+                if valid_ref(y.0, y.1) && y.0 > 0.0 && exp_of(y.0) >= -1000 && exp_of(y.0) < 960 { y } else { (1.5, 0.0) }
+            }
+            _ => tf_in(&mut c.rng, -1000, 959),
+        };
+        let x = match i % 6 {
+            4 | 5 => x,
+            _ => match i % 4 {
             0 => {
                 let k = c.rng.range(1, 105);
                 let h = if k <= 52 { 1.0 + pow2(-k) * if c.rng.coin() { 1.0 } else { -1.0 } } else { 1.0 };
@@ -596,9 +725,13 @@ pub fn c15(c: &mut Ctx) {
             }
             1 => tf_in(&mut c.rng, -4, 4),
             _ => tf_in(&mut c.rng, -1000, 959),
+            },
         };
         let x = (x.0.abs(), if x.0 < 0.0 { -x.1 } else { x.1 });
-        let b = tf_in(&mut c.rng, -100, 100);
+        let b = match c.rng.below(4) {
+            0 => (pk!(c.rng, [2.0f64, 10.0, 3.0, 16.0, 0.5, 100.0, 8.0]), 0.0),
+            _ => tf_in(&mut c.rng, -100, 100),
+        };
         let b = (b.0.abs(), if b.0 < 0.0 { -b.1 } else { b.1 });
         let ins = [hx(x.0), hx(x.1), hx(b.0), hx(b.1)];
         c.note("ln", &tf1(x), true);
